@@ -108,7 +108,7 @@ func (e *Engine) Verify(key string) (res *FuncResult) {
 	st := entry.clone()
 	if fc != nil {
 		for _, gs := range fc.Ghost {
-			if gs.When == "entry" {
+			if gs.When == "entry" && gs.Assert == nil {
 				fr.ghostAssign(gs, st)
 			}
 		}
